@@ -267,6 +267,17 @@ class Evaluator(object):
             if a[0] == "agg" and a[2] in ("None",):
                 return args[1]
             return ("unwrap_or", a, args[1])
+        if is_(("Option::unwrap_or_default", "Result::unwrap_or_default")) and len(args) == 1:
+            # the default of an integer / bool is a constant: same as unwrap_or(0) / unwrap_or(false)
+            dty = (self.body.local_ty(t["dest"]["l"]) or "") if isinstance(t.get("dest"), dict) and "l" in t["dest"] else ""
+            dflt = ("const", "0") if dty in ("u8", "u16", "u32", "u64", "u128", "usize", "i8", "i16", "i32", "i64", "i128", "isize") else (("const", "false") if dty == "bool" else None)
+            if dflt is not None:
+                a = args[0]
+                if a[0] == "agg" and a[2] in ("Some", "Ok"):
+                    return self.field(a, "0")
+                if a[0] == "agg" and a[2] in ("None",):
+                    return dflt
+                return ("unwrap_or", a, dflt)
         if is_(("Option::is_some", "Result::is_ok")) and args:
             a = args[0]
             if a[0] == "agg":
@@ -506,7 +517,10 @@ def neg(e):
     if e[0] == "not":
         return e[1]
     if e[0] == "bin" and e[1] in core_NEG:
-        return ("bin", core_NEG[e[1]], e[2], e[3])
+        op, a, b = core_NEG[e[1]], e[2], e[3]
+        if op in _CANON:          # keep the canonical orientation (only Lt / Le / Eq / Ne): !(a < b) == (b <= a)
+            op, a, b = _CANON[op][0], b, a
+        return ("bin", op, a, b)
     return ("not", e)
 
 
